@@ -328,7 +328,7 @@ static std::vector<Hom> hom_catalogue() {
     add("C14,C06", "hilbert / HilbertFilter / Tuner", 1, HV(HilbertFilter f(31, 0.05); Tuner t(8, 1.25); return app(app(flat(hilbert(rs(24, 1, s))), flat(hilbert(rs(20, 2, s), 32))), app(flat(f.process(rs(80, 3, s))), flat(t.process(cs(40, 4, s)))));));
     add("C16", "sort / median / medfilt", 1, HV(MedianFilter m(5); auto v = ps(20, 3, s); return app(app(flat(sort(ps(9, 1, s)).first), flat(median(ps(10, 2, s)))), app(flat(medfilt(v, 5)), flat(m.process(ps(20, 4, s)))));));
     add("C16", "sort index / corr (first sample scaled)", 0, HV(return app(flat(sort(ps(9, 1, s)).second), Out{corr(ps(12, 1, s), ps(12, 2, 1.0), Correlation::Pearson), corr(ps(12, 1, s), ps(12, 2, 1.0), Correlation::Spearman), corr(ps(12, 1, s), ps(12, 2, 1.0), Correlation::Kendall)});), 100);
-    add("C16", "corr (both samples scaled)", 0, HV(return Out{corr(ps(12, 1, s), ps(12, 2, s), Correlation::Pearson), corr(ps(12, 1, s), ps(12, 2, s), Correlation::Spearman), corr(ps(12, 1, s), ps(12, 2, s), Correlation::Kendall)};), 100);
+    add("C16", "corr (both samples scaled)", 0, HV(return Out{corr(ps(12, 1, s), ps(12, 2, s), Correlation::Pearson), corr(ps(12, 1, s), ps(12, 2, s), Correlation::Spearman), corr(ps(12, 1, s), ps(12, 2, s), Correlation::Kendall)};), 300);
     add("C17", "reductions", 1, HV(auto x = rs(17, 1, s); auto z = cs(17, 2, s); return app(Out{sum(x), mean(x), stddev(x), rms(x), norm(x), max(x), min(x), peak2peak(x), rms(z), norm(z), stddev(z)}, app(flat(cumsum(x)), app(flat(abs(z)), flat(sum(z)))));));
     add("C17", "angle / argmax", 0, HV(auto x = rs(17, 1, s); auto z = cs(17, 2, s); return app(flat(angle(z)), Out{(double)argmax(x), (double)argmin(x), (double)argmax(z)});));
     add("C18", "finddelay / gccphat", 0, HV(auto x = rs(64, 1, s); auto y = delayseq(x, 5); return app(flat((double)finddelay(x, y)), flat(gccphat(y, x, 8000).tau));), 100);
